@@ -4,7 +4,7 @@ from lib import (Canon, norm_arm, walk, nodes, ends, src, psrc, outcome, contain
                  strip_refs, guards, gtext, top_stmts)
 
 EXPLANATION = (
-    "Decides one clause, not that satisfiable conjunctions accept the right instances nor order independence: (W1) every value "
+    "Decides structural clauses of the binary merges (mirror cases, directions, strictness, index spaces) and, by evaluation, the instance-type test that filters enum values; not that every satisfiable conjunction accepts the right instances nor order independence in general: (W1) every value "
     "of the merge machinery that can signal 'no instance' — a Result<_, ()> from the try_merge family, Schema::Bool(false) from "
     "merge_all — is, at each site where it is consumed, propagated with `?`, mapped to Schema::Bool(false), matched with an Err "
     "arm that builds the uninhabited type, tested, or is one of the tabled drops (a branch of anyOf/oneOf that cannot be merged "
